@@ -50,6 +50,11 @@ pub fn rerun(line: &str) -> Option<String> {
         ["wasmqr", hx] => Some(crate::wasmops::wasmqr_line(&String::from_utf8(unhex(hx)).ok()?)),
         ["hist", hx, ops] => Some(crate::histops::hist_line(&unhex(hx), &crate::histops::parse(ops)?)),
         ["threads", t, seed, k] => Some(crate::histops::threads_line(t.parse().ok()?, seed.parse().ok()?, k.parse().ok()?)),
+        ["file", kind, k, r, size] => Some(crate::faultops::file_line(kind.parse().ok()?, k.parse().ok()?, r, size.parse().ok()?)),
+        ["pix", hx, e, m, v, k, ops, fw, fh] => {
+            let o = crate::common::Opts { ecl: optn(e), mode: optn(m), version: optn(v), mask: optn(k) };
+            Some(crate::pixops::pix_line(&unhex(hx), o, &crate::svgops::parse(ops)?, fw.parse().ok(), fh.parse().ok()))
+        }
         ["classify", hx] => Some(crate::gen::classify_line(&unhex(hx))),
         _ => None,
     }
